@@ -46,6 +46,11 @@ import (
 
 const nAlerts = 4
 
+// maintenanceInterval is incommensurable with every op instant and timer of a case (those are whole
+// milliseconds plus a few nanoseconds): the dispatcher's maintenance never ties with a flush, whose
+// relative order would otherwise decide whether a destroyed group still counts against the group limit.
+const maintenanceInterval = 15*time.Second + 7*time.Millisecond + 618033*time.Nanosecond
+
 func labelsOf(id int) model.LabelSet {
 	// two groups: ids 1,2 → g=a ; ids 3,4 → g=b
 	g := "a"
@@ -301,7 +306,7 @@ func (w *world) startDispatcher() {
 		}
 		return d
 	}
-	w.disp = dispatch.NewDispatcher(w.alerts, route, recStage{w, pipe}, gm, timeout, 15*time.Second, groupLimit(w.limit), logger, rec, nil, nil)
+	w.disp = dispatch.NewDispatcher(w.alerts, route, recStage{w, pipe}, gm, timeout, maintenanceInterval, groupLimit(w.limit), logger, rec, nil, nil)
 	go w.inh.Run()
 	w.inh.WaitForLoading()
 	go w.disp.Run(time.Now())
